@@ -4,6 +4,7 @@ import (
 	"fmt"
 	"math/rand/v2"
 	"sort"
+	"strings"
 
 	"seehuhn.de/go/geom/rect"
 	"seehuhn.de/go/postscript/afm"
@@ -127,6 +128,11 @@ func genMetrics(rng *rand.Rand, o *afmOpts, maxGlyphs int) *afm.Metrics {
 	m.FullName = genWords(rng)
 	m.Version = genWords(rng)
 	m.Notice = genWords(rng)
+	if rng.IntN(150) == 0 {
+		// a line of more than 64 KiB
+		m.Notice = strings.TrimSpace(strings.Repeat("All rights reserved. ", 3400))
+		o.f("header line longer than 64 KiB")
+	}
 	m.CapHeight = num(0, 1000)
 	m.XHeight = num(0, 1000)
 	m.Ascent = num(0, 1200)
@@ -156,7 +162,7 @@ func sortedMetricNames(m *afm.Metrics) []string {
 
 func describeMetrics(m *afm.Metrics) string {
 	s := fmt.Sprintf("FontName %q FullName %q Version %q Notice %q Cap %v X %v Asc %v Desc %v UPos %v UThick %v Italic %v Fixed %v\n",
-		m.FontName, m.FullName, m.Version, m.Notice, m.CapHeight, m.XHeight, m.Ascent, m.Descent, m.UnderlinePosition, m.UnderlineThickness, m.ItalicAngle, m.IsFixedPitch)
+		m.FontName, m.FullName, m.Version, head([]byte(m.Notice), 300), m.CapHeight, m.XHeight, m.Ascent, m.Descent, m.UnderlinePosition, m.UnderlineThickness, m.ItalicAngle, m.IsFixedPitch)
 	for _, n := range sortedMetricNames(m) {
 		g := m.Glyphs[n]
 		code := -1
